@@ -69,7 +69,7 @@ theorem isDir_mkdirs (v : Variant) : ∀ (l : List Path) (s : St),
     intro s
     simp only [List.map_cons, run, List.foldl_cons] at ih ⊢
     rw [ih]
-    simp [step, Fs.step]
+    simp [step, Fs.step, scratchStep]
 
 /-- closed form of the repaired `_write_file` skeleton -/
 theorem setOps_fixed (b : Nat) (s : St) (k : Path) (val : Bytes) :
@@ -113,15 +113,18 @@ theorem run_fsyncDirs (v : Variant) : ∀ (L : List Path) (s : St),
     run v s (L.map Op.fsyncDir) =
       { s with fs := { s.fs with
           ddirs := (L.reverse.flatMap fun d => s.fs.vdirs.filter (fun p => parent p == d)) ++ s.fs.ddirs
-          dents := (L.reverse.flatMap fun d => (names s.fs.vfiles).filter (fun p => parent p == d)) ++ s.fs.dents } } := by
+          alt := s.fs.alt.filter (fun p => L.all fun d => parent p.1 != d) } } := by
   intro L
   induction L with
-  | nil => intro s; simp [run]
+  | nil =>
+    intro s
+    have : s.fs.alt.filter (fun _ => true) = s.fs.alt := List.filter_eq_self.mpr (by simp)
+    simp [run, this]
   | cons d L ih =>
     intro s
     simp only [List.map_cons, run, List.foldl_cons] at ih ⊢
     rw [ih]
-    simp [step, Fs.step, List.flatMap_append]
+    simp [step, Fs.step, scratchStep, List.flatMap_append, List.filter_filter, Bool.and_comm]
 
 theorem okRun_fsyncDirs (v : Variant) : ∀ (L : List Path) (s : St), s.cur.isSome = true →
     (∀ d ∈ L, s.fs.isDir d = true) → okRun v s (L.map Op.fsyncDir) = true := by
@@ -145,7 +148,7 @@ theorem run_mkdirs (v : Variant) : ∀ (l : List Path) (s : St),
     intro s
     simp only [List.map_cons, run, List.foldl_cons] at ih ⊢
     rw [ih]
-    simp [step, Fs.step]
+    simp [step, Fs.step, scratchStep]
 
 
 theorem okRun_mkdirs (v : Variant) (k : Path) (val : Bytes) : ∀ (l : List Path) (base : Path) (s : St)
@@ -209,12 +212,12 @@ theorem value_segment (t : St) (k : Path) (val : Bytes) (hc : t.cur = some (k, v
   by_cases he : val = []
   · subst he
     refine ⟨t.fs.vfiles, t.fs.pend, ?_, hv, mem_names_of_lookup _ _ _ hv, fun f hf => Or.inr hf, ?_⟩
-    · simp [writeOps, run, step, Fs.step, Fs.contOf, hv, ho]
-    · simp [writeOps, okRun, ok, curKey, hc, ho, step, Fs.step]
+    · simp [writeOps, run, step, Fs.step, Fs.contOf, hv, ho, scratchStep]
+    · simp [writeOps, okRun, ok, allowed, curKey, hc, ho, step, Fs.step]
   · refine ⟨setKV t.fs.vfiles k val, setKV t.fs.pend k (t.fs.pendOf k ++ [Eff.write 0 val]), ?_,
       lookup_setKV_same _ _ _, mem_names_setKV_self _ _ _, fun f hf => mem_names_setKV_fwd _ _ _ _ hf, ?_⟩
-    · simp [writeOps, he, run, step, Fs.step, Fs.contOf, hv, ho, lookup_setKV_same]
-    · simp [writeOps, he, okRun, ok, curKey, hc, ho, step, Fs.step]
+    · simp [writeOps, he, run, step, Fs.step, Fs.contOf, hv, ho, lookup_setKV_same, scratchStep]
+    · simp [writeOps, he, okRun, ok, allowed, curKey, hc, ho, step, Fs.step]
 
 
 theorem chain_prefix : ∀ (l1 l2 : List Path) (b : Path), ChainFrom b (l1 ++ l2) → ChainFrom b l1 := by
@@ -238,12 +241,15 @@ theorem chain_parent : ∀ (A : List Path) (k base : Path), ChainFrom base (A ++
       · exact Or.inr (e ▸ List.mem_cons_self)
       · exact Or.inr (List.mem_cons_of_mem _ e)
 
-theorem creat_facts (t : St) (k : Path) (ho : t.fs.opened = []) :
+theorem creat_facts (t : St) (k : Path) (ho : t.fs.opened = []) (hck : curKey t = some k) :
     (step .strict t (.creatTrunc k)).cur = t.cur ∧ (step .strict t (.creatTrunc k)).done = t.done ∧
     (step .strict t (.creatTrunc k)).fs.vdirs = t.fs.vdirs ∧ (step .strict t (.creatTrunc k)).fs.ddirs = t.fs.ddirs ∧
-    (step .strict t (.creatTrunc k)).fs.dents = t.fs.dents ∧ (step .strict t (.creatTrunc k)).fs.opened = [k] ∧
-    (step .strict t (.creatTrunc k)).fs.vfiles = setKV t.fs.vfiles k [] := by
-  simp only [step, Fs.step]
+    (step .strict t (.creatTrunc k)).fs.alt =
+      (if t.fs.isFile k then t.fs.alt else setKV t.fs.alt k (fileChoices t.fs k)) ∧
+    (step .strict t (.creatTrunc k)).fs.opened = [k] ∧
+    (step .strict t (.creatTrunc k)).fs.vfiles = setKV t.fs.vfiles k [] ∧
+    (step .strict t (.creatTrunc k)).scratch = t.scratch := by
+  simp only [step, Fs.step, scratchStep, hck]
   split <;> simp [ho]
 
 /-- the keys of a sequence of sets are usable together: none is empty, none is a directory on the
@@ -252,14 +258,16 @@ def ValidKeys (K : List Path) : Prop := ∀ k ∈ K, k ≠ [] ∧ ∀ k' ∈ K, 
 
 instance (K : List Path) : Decidable (ValidKeys K) := by unfold ValidKeys; exact inferInstance
 
-/-- between sets: nothing in progress, nothing open, every directory and file entry durable -/
+/-- between sets: nothing in progress, nothing open, every directory entry durable, no pending
+    file-entry update, no scratch path -/
 structure Quiet (K : List Path) (s : St) : Prop where
   cur : s.cur = none
   opened : s.fs.opened = []
   dirsDur : ∀ d ∈ s.fs.vdirs, d ∈ s.fs.ddirs
-  filesDur : ∀ f ∈ names s.fs.vfiles, f ∈ s.fs.dents
+  altNil : s.fs.alt = []
   dirsAnc : ∀ d ∈ s.fs.vdirs, ∃ k ∈ K, d ∈ ancestors k
   filesKeys : ∀ f ∈ names s.fs.vfiles, f ∈ K
+  scratch : s.scratch = []
 
 theorem set_ok (b : Nat) (K : List Path) (s : St) (k : Path) (val : Bytes)
     (hv : ValidKeys K) (hk : k ∈ K) (hq : Quiet K s) :
@@ -292,7 +300,7 @@ theorem set_ok (b : Nat) (K : List Path) (s : St) (k : Path) (val : Bytes)
   have hrun2 : run .strict s1 (mkdirOps s.fs k) = s2 := by
     simp only [mkdirOps]; rw [run_mkdirs]
   have hok1 : okRun .strict s [.begin k val] = true := by
-    simp [okRun, ok, hq.cur, hq.opened, hkne, Fs.isDir, hknd]
+    simp [okRun, ok, hq.cur, hq.opened, hq.scratch, hkne, Fs.isDir, hknd]
     intro a ha
     simpa [Fs.isFile] using hancfile a ha
   have hok2 : okRun .strict s1 (mkdirOps s.fs k) = true :=
@@ -314,11 +322,11 @@ theorem set_ok (b : Nat) (K : List Path) (s : St) (k : Path) (val : Bytes)
     · exact hdir2 _ e
   -- creat
   let s3 := step .strict s2 (.creatTrunc k)
-  obtain ⟨c3cur, c3done, c3vd, c3dd, c3de, c3op, c3vf⟩ := creat_facts s2 k hq.opened
+  obtain ⟨c3cur, c3done, c3vd, c3dd, c3alt, c3op, c3vf, c3scr⟩ := creat_facts s2 k hq.opened rfl
   have hok3 : okRun .strict s2 [.creatTrunc k] = true := by
     have hp := hpar2 k (by simp)
     have : k ∉ M := fun h => hself (List.mem_filter.mp h).1
-    simp [okRun, ok, curKey, s2, s1, hq.opened, Fs.isDir, hkne, hknd, this] at hp ⊢
+    simp [okRun, ok, allowed, curKey, s2, s1, hq.opened, Fs.isDir, hkne, hknd, this] at hp ⊢
     exact hp
   -- value file
   obtain ⟨V, P, hrun5, hV, hkV, hVsub, hok5⟩ :=
@@ -329,7 +337,13 @@ theorem set_ok (b : Nat) (K : List Path) (s : St) (k : Path) (val : Bytes)
   have hrun5' : run .strict s3 (writeOps k val ++ [.fsyncFile k, .close k]) = s5 := hrun5
   have h5vd : s5.fs.vdirs = M.reverse ++ s.fs.vdirs := c3vd
   have h5dd : s5.fs.ddirs = s.fs.ddirs := c3dd
-  have h5de : s5.fs.dents = s.fs.dents := c3de
+  have h5alt : s5.fs.alt = if s.fs.isFile k then [] else [(k, fileChoices s2.fs k)] := by
+    have : s5.fs.alt = (if s2.fs.isFile k then s2.fs.alt else setKV s2.fs.alt k (fileChoices s2.fs k)) := c3alt
+    rw [this]
+    simp [s2, s1, Fs.isFile, hq.altNil, setKV]
+  have h5scr : s5.scratch = [] := by
+    have : s5.scratch = s2.scratch := c3scr
+    rw [this]; exact hq.scratch
   have h5cur : s5.cur = some (k, val) := c3cur
   have h3cur : s3.cur = some (k, val) := c3cur
   have hV3 : ∀ f ∈ names V, f = k ∨ f ∈ names s.fs.vfiles := by
@@ -359,15 +373,14 @@ theorem set_ok (b : Nat) (K : List Path) (s : St) (k : Path) (val : Bytes)
   have hok6 := okRun_fsyncDirs .strict NP s5 (by simp [h5cur]) hNPdir
   have hrun6 := run_fsyncDirs .strict NP s5
   -- durability of the chain after the directory fsyncs
-  have hkdent : k ∈ (NP.reverse.flatMap fun d => (names s5.fs.vfiles).filter (fun p => parent p == d)) ++ s5.fs.dents := by
+  have halt6 : s5.fs.alt.filter (fun p => NP.all fun d => parent p.1 != d) = [] := by
+    rw [h5alt]
     cases h : s.fs.isFile k with
-    | true =>
-      have : k ∈ names s.fs.vfiles := by simpa [Fs.isFile] using h
-      exact List.mem_append_right _ (h5de ▸ hq.filesDur k this)
+    | true => simp
     | false =>
-      refine List.mem_append_left _ (List.mem_flatMap.mpr ⟨parent k, ?_, ?_⟩)
-      · exact List.mem_reverse.mpr (hNPmem k (Or.inl ⟨rfl, h⟩))
-      · simp [s5, hkV]
+      have hall : (NP.all fun d => parent k != d) = false :=
+        List.all_eq_false.mpr ⟨parent k, hNPmem k (Or.inl ⟨rfl, h⟩), by simp⟩
+      simp [List.filter_cons, hall]
   have hancd : ∀ a ∈ ancestors k,
       a ∈ (NP.reverse.flatMap fun d => s5.fs.vdirs.filter (fun p => parent p == d)) ++ s5.fs.ddirs := by
     intro a ha
@@ -387,14 +400,13 @@ theorem set_ok (b : Nat) (K : List Path) (s : St) (k : Path) (val : Bytes)
   rw [hlist]
   simp only [okRun_append, run_append, hrun1, hrun2, hrun3, hrun5', hrun6, hok1, hok2, hok3, hok5, hok6, Bool.true_and]
   constructor
-  · -- the return is well-formed: closed, full value, durable
+  · -- the return is well-formed: closed, full value, durable, no scratch left
     have hanc' : ∀ a ∈ ancestors k, a ∈ (NP.reverse.flatMap fun d => s5.fs.vdirs.filter (fun p => parent p == d)) ∨ a ∈ s5.fs.ddirs :=
       fun a ha => List.mem_append.mp (hancd a ha)
-    have hkd' := List.mem_append.mp hkdent
-    simp only [okRun, ok, h5cur, durableAs, Fs.isFile, Fs.pendOf, Bool.and_true]
-    simp [s5, hV, hkV, lookup_setKV_same] at hanc' hkd' ⊢
-    exact ⟨hkd', hanc'⟩
-  · refine ⟨by simp [run, step, h5cur], by simp [run, step, h5cur]; simp [s5], ?_, ?_, ?_, ?_⟩
+    simp only [okRun, ok, h5cur, durableAs, Fs.isFile, Fs.pendOf, Fs.altOf, halt6, h5scr, Bool.and_true]
+    simp [s5, hV, hkV, lookup_setKV_same] at hanc' ⊢
+    exact hanc'
+  · refine ⟨by simp [run, step, h5cur], by simp [run, step, h5cur]; simp [s5], ?_, ?_, ?_, ?_, by simp [run, step, h5cur]⟩
     · intro d hd
       have hd' : d ∈ M.reverse ++ s.fs.vdirs := by simpa [run, step, h5cur, h5vd] using hd
       have : d ∈ (NP.reverse.flatMap fun d => s5.fs.vdirs.filter (fun p => parent p == d)) ++ s5.fs.ddirs := by
@@ -402,13 +414,7 @@ theorem set_ok (b : Nat) (K : List Path) (s : St) (k : Path) (val : Bytes)
         · exact hancd d (List.mem_filter.mp (List.mem_reverse.mp h)).1
         · exact List.mem_append_right _ (h5dd ▸ hq.dirsDur d h)
       simpa [run, step, h5cur] using this
-    · intro f hf
-      have hf' : f ∈ names V := by simpa [run, step, h5cur] using hf
-      have : f ∈ (NP.reverse.flatMap fun d => (names s5.fs.vfiles).filter (fun p => parent p == d)) ++ s5.fs.dents := by
-        rcases hV3 f hf' with e | e
-        · exact e ▸ hkdent
-        · exact List.mem_append_right _ (h5de ▸ hq.filesDur f e)
-      simpa [run, step, h5cur] using this
+    · simpa [run, step, h5cur] using halt6
     · intro d hd
       have hd' : d ∈ M.reverse ++ s.fs.vdirs := by simpa [run, step, h5cur, h5vd] using hd
       rcases List.mem_append.mp hd' with h | h
@@ -420,9 +426,8 @@ theorem set_ok (b : Nat) (K : List Path) (s : St) (k : Path) (val : Bytes)
       · exact e ▸ hk
       · exact hq.filesKeys f e
 
-
 theorem quiet_init (K : List Path) : Quiet K init := by
-  refine ⟨rfl, rfl, ?_, ?_, ?_, ?_⟩ <;> intro x hx <;> simp [init, names] at hx
+  refine ⟨rfl, rfl, ?_, rfl, ?_, ?_, rfl⟩ <;> intro x hx <;> simp [init, names] at hx
 
 /-- every set of a valid key sequence, written by the repaired `_write_file`, is well-formed and
     leaves the store quiet again -/
@@ -446,6 +451,110 @@ theorem fixed_write_path_wf (b : Nat) (sets : List (Path × Bytes)) (hv : ValidK
   have := traceOf_fixed_ok b _ hv sets init (fun kv h => List.mem_map.mpr ⟨kv, h, rfl⟩) (quiet_init _)
   simp [WF, runWF_eq, this]
 
+/-! ### the in-place write path has no scratch files -/
+
+/-- the trace creates files only at the key of the set in progress -/
+def inPlace : Option Path → List Op → Bool
+  | _, [] => true
+  | _, .begin k _ :: tr => inPlace (some k) tr
+  | _, .ret :: tr => inPlace none tr
+  | c, .creatTrunc f :: tr => c == some f && inPlace c tr
+  | c, .mkdir _ :: tr => inPlace c tr
+  | c, .write _ _ :: tr => inPlace c tr
+  | c, .fsyncFile _ :: tr => inPlace c tr
+  | c, .fsyncDir _ :: tr => inPlace c tr
+  | c, .close _ :: tr => inPlace c tr
+  | c, .rename _ _ :: tr => inPlace c tr
+  | c, .unlink _ :: tr => inPlace c tr
+
+def neutral : Op → Bool
+  | .begin _ _ => false
+  | .ret => false
+  | .creatTrunc _ => false
+  | _ => true
+
+theorem ghost_scratch_inPlace : ∀ (tr : List Op) (g : Ghost), g.scratch = [] →
+    inPlace (g.cur.map (·.1)) tr = true → (ghost g tr).scratch = [] := by
+  intro tr
+  induction tr with
+  | nil => intro g h _; exact h
+  | cons op tr ih =>
+    intro g h hin
+    simp only [ghost, List.foldl_cons] at ih ⊢
+    cases op with
+    | begin k v => exact ih _ (by simpa [ghostStep] using h) (by simpa [ghostStep, inPlace] using hin)
+    | ret =>
+      cases hc : g.cur with
+      | none => exact ih _ (by simp [ghostStep, hc]) (by simpa [ghostStep, hc, inPlace] using hin)
+      | some kv => exact ih _ (by simp [ghostStep, hc]) (by simpa [ghostStep, hc, inPlace] using hin)
+    | creatTrunc f =>
+      simp only [inPlace, Bool.and_eq_true] at hin
+      refine ih _ ?_ (by simpa [ghostStep] using hin.2)
+      simp [ghostStep, scratchStep, h, hin.1]
+    | mkdir d => exact ih _ (by simpa [ghostStep, scratchStep] using h) (by simpa [ghostStep, inPlace] using hin)
+    | write f d => exact ih _ (by simpa [ghostStep, scratchStep] using h) (by simpa [ghostStep, inPlace] using hin)
+    | fsyncFile f => exact ih _ (by simpa [ghostStep, scratchStep] using h) (by simpa [ghostStep, inPlace] using hin)
+    | fsyncDir d => exact ih _ (by simpa [ghostStep, scratchStep] using h) (by simpa [ghostStep, inPlace] using hin)
+    | close f => exact ih _ (by simpa [ghostStep, scratchStep] using h) (by simpa [ghostStep, inPlace] using hin)
+    | rename a b => exact ih _ (by simpa [ghostStep, scratchStep] using h) (by simpa [ghostStep, inPlace] using hin)
+    | unlink f => exact ih _ (by simpa [ghostStep, scratchStep] using h) (by simpa [ghostStep, inPlace] using hin)
+
+theorem inPlace_prefix : ∀ (a b : List Op) (c : Option Path), inPlace c (a ++ b) = true → inPlace c a = true := by
+  intro a
+  induction a with
+  | nil => intro _ _ _; rfl
+  | cons op a ih =>
+    intro b c h
+    cases op <;> simp only [List.cons_append, inPlace, Bool.and_eq_true] at h ⊢
+    case creatTrunc f => exact ⟨h.1, ih b c h.2⟩
+    all_goals exact ih b _ h
+
+theorem inPlace_neutral : ∀ (l r : List Op) (c : Option Path), l.all neutral = true →
+    inPlace c (l ++ r) = inPlace c r := by
+  intro l
+  induction l with
+  | nil => intro _ _ _; rfl
+  | cons op l ih =>
+    intro r c h
+    simp only [List.all_cons, Bool.and_eq_true] at h
+    cases op <;> simp only [neutral] at h <;> simp only [List.cons_append, inPlace] <;> first
+      | exact ih r c h.2
+      | exact absurd h.1 (by simp)
+
+theorem inPlace_setOps_fixed (b : Nat) (s : St) (k : Path) (val : Bytes) (rest : List Op) (c : Option Path) :
+    inPlace c (setOps .strict skFixed true b s k val ++ rest) = inPlace none rest := by
+  rw [setOps_fixed]
+  have hmk : (mkdirOps s.fs k).all neutral = true := by simp [mkdirOps, List.all_map, neutral]
+  have hwr : (writeOps k val).all neutral = true := by
+    simp only [writeOps]; split <;> simp [neutral]
+  have hfd : ((newParents s.fs k).map Op.fsyncDir).all neutral = true := by simp [List.all_map, neutral]
+  simp only [List.append_assoc, List.cons_append, List.nil_append, inPlace]
+  rw [inPlace_neutral _ _ _ hmk]
+  simp only [inPlace, beq_self_eq_true, Bool.true_and]
+  rw [inPlace_neutral _ _ _ hwr]
+  simp only [inPlace]
+  rw [inPlace_neutral _ _ _ hfd]
+  simp only [inPlace]
+
+theorem inPlace_traceOf_fixed (b : Nat) : ∀ (sets : List (Path × Bytes)) (s : St) (c : Option Path),
+    inPlace c (traceOf .strict skFixed true b s sets) = true := by
+  intro sets
+  induction sets with
+  | nil => intro _ _; rfl
+  | cons kv rest ih =>
+    intro s c
+    obtain ⟨k, val⟩ := kv
+    simp only [traceOf]
+    rw [inPlace_setOps_fixed]
+    exact ih _ none
+
+/-- no prefix of a trace of the repaired (in-place) write path has scratch files -/
+theorem scratchOf_fixed (b : Nat) (sets : List (Path × Bytes)) (pre suf : List Op)
+    (htr : traceOf .strict skFixed true b init sets = pre ++ suf) : scratchOf pre = [] := by
+  have h := inPlace_traceOf_fixed b sets init none
+  rw [htr] at h
+  exact ghost_scratch_inPlace pre {} rfl (inPlace_prefix pre suf none h)
+
 /-- **C17 for the model of the repaired code, outright**: for every sequence of sets through the
     repaired `_write_file` (any length, values, buffer size; keys prefix-free), every crash
     instant and every crash image under the strict model, every key other than the one being
@@ -453,7 +562,8 @@ theorem fixed_write_path_wf (b : Nat) (sets : List (Path × Bytes)) (hv : ValidK
 theorem kvs_crash_safe (b : Nat) (sets : List (Path × Bytes)) (hv : ValidKeys (sets.map (·.1)))
     (pre suf : List Op) (htr : traceOf .strict skFixed true b init sets = pre ++ suf) :
     ∀ c ∈ crashAfter .strict pre, ∀ k, inProgress pre ≠ some k → recover c k = lastCompleted pre k :=
-  crash_safety_core .strict _ pre suf htr (fixed_write_path_wf b sets hv)
+  fun c hc k hk => crash_safety_core .strict _ pre suf htr (fixed_write_path_wf b sets hv) c hc k hk
+    (by simp [scratchOf_fixed b sets pre suf htr])
 
 /-- non-vacuity: the demo sequence (nested key, second key, overwrite) has valid keys, and the
     theorem gives e.g. durability of key 3 in the middle of the overwrite of 1/2 -/
